@@ -58,6 +58,12 @@ where
         let store = Vec::from(bytes);
         // add data to entries
         for entry in &mut entries {
+            // the offset is untrusted: it must lie inside the store
+            if entry.offset < 0 || entry.offset as usize > bytes.len() {
+                return Err(Error::Nom(
+                    "index entry offset is outside of the store".to_string(),
+                ));
+            }
             let mut remaining = &bytes[entry.offset as usize..];
 
             match &mut entry.data {
